@@ -36,6 +36,20 @@ def gen_cases(rng, tier):
     N = 500 if tier == 'quick' else 8000
     from props.c07 import plant, rand_window
     from props.c03 import ropt_range, rpos
+    # the chunked reverse scan of _findall_lsb0: occurrences planted at lsb0 positions around every multiple of the chunk size
+    for j in range(6 if tier == 'quick' else 120):
+        n = rng.choice([8200, 8300, 9000] if tier == 'quick' else [8193, 8200, 9000, 16390, 16500, 20000, 30000])
+        pl = rng.choice([2, 3, 6, 8, 16])
+        pat = '1' + rand_bits(rng, pl - 2, 'rand') + '1'
+        l = ['0'] * n
+        for b in range(8192, n, 8192):
+            for p in rng.sample([b - pl - 1, b - pl, b - pl + 1, b - 1, b, b + 1, b + 2], 2):
+                m = n - p - pl                      # msb0 index of the occurrence at lsb0 position p
+                if 0 <= m and m + pl <= n: l[m:m + pl] = list(pat)
+        bits = ''.join(l)
+        a, b_ = (None, None) if j % 2 == 0 else rand_window(rng, n)
+        yield {'op': rng.choice(['findall', 'findall', 'find', 'rfind', 'replace']) if tier != 'quick' else ['findall', 'find', 'findall', 'rfind'][j % 4], 'bits': bits, 'cls': 'BitArray', 'pat': pat, 'start': a, 'end': b_,
+               'ba': j % 5 == 4, 'count': None, 'new': '0'}
     for i in range(N):
         n = rand_len(rng, tier)
         bits = rand_bits(rng, n)
